@@ -59,7 +59,7 @@ CHECKS.update({
    technique='bounded CBMC check (harness-enforced contracts) of the extracted Message::prepareMaster / prepareMasterPart / prepareSlave / storeLastData / checkId and ChainedMessage::checkId / prepareMasterPart / storeLastData / combineLastParts + SymbolString::compareTo against a byte-level telegram specification, DataField::write as a stub',
    level='other',
    text='BOUNDED, partial: for every definition with up to 6 further id bytes and up to 12 encoded data bytes the built telegram is proved to be QQ ZZ PB SB NN id data with NN = number of following bytes, to be built whenever the definition is active and the field input accepted, to pass the exact id check of its definition and to be the stored last master data; prepareSlave/storeLastData store exactly the given parts and move the change time iff the data changed. For chains of 2..3 parts: part i carries the id of part i and the bytes [sum of lengths before i, +length i) of the encoded data, is identified back as that part and stored; storing a received part (any arrival order) files it under the part whose id it carries, and once all parts are present in time the joined master/slave value is the concatenation of the part data in part order (checked per byte: no loss, duplication, reordering), NN adjusted. Message::decodeLastData reads the master fields from the stored master part behind the id bytes and the slave fields from the stored slave part at data offset 0 (the positions where prepareMasterPart / prepareSlave placed them), counting a field index over the master fields first. Definition parsing (Message::create incl. the data length limit) and the field decoding itself (DataFieldSet::read; see C05/C10) are not part of this check.',
-   note=TB + 'bounded by the model capacities (ids <= 6 further bytes, data <= 12 bytes, chains <= 3 parts with <= 3 data / 4 slave bytes per part; quick tier 2 parts); DataField::write is a stub appending a ghost byte array at the data offset it is given (growing with zeros like SymbolString::dataAt); chain well-formedness (equal id lengths, common prefix shorter than the ids, one length per part) is the assumed result of Message::create; stored parts with an arrival time carry the complete id (invariant, shown preserved).',
+   note=TB + 'bounded by the model capacities (ids <= 6 further bytes, data <= 12 bytes, chains <= 3 parts with <= 3 data / 4 slave bytes per part; quick tier 2 parts); DataField::write is a stub appending a ghost byte array at the data offset it is given (growing with zeros like SymbolString::dataAt); chain well-formedness (equal id lengths, common id a prefix of every part id, one length per part, never passive) is proved for the chain id parsing fragment of Message::create (rule R16; string handling, parseId and parseInt as stubs); that the part ids differ after the common prefix (no two identical part ids) remains an assumption; stored parts with an arrival time carry the complete id (invariant, shown preserved).',
    ref='DESIGN.md I.2 (C09)'),
  'C19': dict(
    technique='bounded CBMC check (harness-enforced contract) of the extracted AttributedItem::dumpString, FileReader::splitFields and FileReader::trim: write-then-read round trip of field texts over the full character set',
